@@ -11,6 +11,7 @@ package shimagent
 import (
 	"bytes"
 	"crypto/rand"
+	"crypto/sha256"
 	"encoding/hex"
 	"encoding/json"
 	"fmt"
@@ -333,6 +334,10 @@ func zvfNewInstSK(u *zvfVUniverse, init zvfVState, zvfHasTick bool, rnd *mrand.R
 	in.px.Frag = rnd.Intn(3) != 0 // most instances see replies arrive in several segments
 	in.px.Rewrite = func(req, reply []byte) []byte {
 		if len(req) > 0 && req[0] == 27 { // extension requests are answered with an echo so that replies are sizeable and caller-specific
+			if len(req) > 1<<20 { // a full echo of a request near the 16 MiB frame limit would exceed it: answer with its digest
+				d := sha256.Sum256(req)
+				return append([]byte{29}, d[:]...)
+			}
 			return append([]byte{29}, req...)
 		}
 		return reply
@@ -584,6 +589,26 @@ func (in *zvfVInst) exec(op, arg string) (res zvfVRes) {
 		var req []byte
 		if arg == "list" {
 			req = []byte{11}
+		} else if arg == "big" {
+			// request sizes on buffer boundaries: 4 KiB, 64 KiB and the 16 MiB frame limit (the largest frame the protocol allows)
+			base := []int{4096, 65536, 16 << 20, 16 << 20}[in.rint(4)]
+			sz := base - in.rint(7)
+			req = make([]byte, sz)
+			rand.Read(req[:4096-8])
+			copy(req, []byte{27, 0, 0, 0, 7, 'v', 'e', 'r', 'i', 'f', '@', 'x'})
+			resp, err := s.Forward(req)
+			if err != nil {
+				return zvfVRes{}
+			}
+			d := sha256.Sum256(req)
+			want := append([]byte{29}, req...)
+			if sz > 1<<20 {
+				want = append([]byte{29}, d[:]...)
+			}
+			if bytes.Equal(resp, want) {
+				return zvfVRes{Ok: true, By: "relayed"}
+			}
+			return zvfVRes{Ok: true, By: "altered"}
 		} else {
 			body := make([]byte, 8+in.rint(200))
 			if in.rint(4) == 0 {
@@ -1130,7 +1155,7 @@ func zvfVRandomTrace(plan *zvfVPlan, ti int, tr *verifh.Trace, st *zvfVStats) {
 						arg = cur.Up
 					}
 				case "forward":
-					arg = zvfPick(rnd, []string{"ext", "list"})
+					arg = zvfPick(rnd, []string{"ext", "list", "ext", "list", "big"})
 				case "dremove":
 					arg = zvfPick(rnd, cur.U)
 				}
